@@ -205,7 +205,7 @@ func binarySession(r *mon.Run, bin string, idx int) {
 			gotIn = append(gotIn, data)
 		case msg == "Shell I/O" && dir == "output":
 			gotOut.WriteString(data)
-		case reasons[msg]:
+		case isRefusalRecord(fmt.Sprint(m["level"]), msg):
 			gotRefused = append(gotRefused, conn{dir, id})
 		}
 		if err != nil {
